@@ -11,7 +11,8 @@ LEVEL = "exploration"
 RULE = ("exhaustive grid |src| 0..12 x |dest| 1..8 x evenly x max_connects in {1,2,3,inf} (documented "
         "precondition |src| <= |dest|*max_connects, boundary included) x 50 seeds of the global random module, "
         "recorded World.connect calls checked against the documented distribution; Hypothesis for sizes up to "
-        "200 and an end-to-end sample against a real World; non-trivial = |src| > |dest| or |src| = "
+        "200, large destination sets (64..5000) with a small remainder in the last round, and an end-to-end sample "
+        "against a real World; non-trivial = |src| > |dest| or |src| = "
         "|dest|*max_connects or finite max_connects; distinct = distinct (sizes, flags, seed) tuples")
 ASSUMPTIONS = [
     "the helpers use only World.connect (checked against a recording stand-in; a sample runs against a real World)",
@@ -77,7 +78,9 @@ def run_case(case):
             counts[c[1]] += 1
     if evenly:
         if max(counts.values()) - min(counts.values()) > 1:
-            out.append(("C18.evenly", f"connections per destination {sorted(counts.values())}"))
+            vals = sorted(counts.values())
+            out.append(("C18.evenly", f"connections per destination range from {vals[0]} to {vals[-1]} "
+                                      f"({vals[:6]} ... {vals[-6:]})"))
     elif mc is not None and max(counts.values()) > mc:
         out.append(("C18.max_connects", f"a destination received {max(counts.values())} > {mc}"))
     want = {d for d, n in counts.items() if n > 0}
@@ -251,10 +254,23 @@ def shard(prop, tier, seed, shard, nshards):
         return dict(kind="randomly", n_src=ns, n_dest=nd, evenly=evenly, max_connects=mc,
                     seed=draw(st.integers(0, 2 ** 31)))
 
+    @st.composite
+    def hlarge(draw):
+        # large destination sets with a small remainder in the last round (and just above / below a multiple)
+        nd = draw(st.one_of(st.integers(64, 600), st.integers(600, 5000)))
+        q = draw(st.integers(1, 2))
+        r = draw(st.integers(0, max(2, nd // 16)))
+        evenly = draw(st.sampled_from([True, True, False]))
+        mc = None if evenly else draw(st.one_of(st.none(), st.integers(q + 1, q + 3)))
+        return dict(kind="randomly", n_src=q * nd + r, n_dest=nd, evenly=evenly, max_connects=mc,
+                    seed=draw(st.integers(0, 2 ** 31)))
+
     def hcheck(case, acc_):
-        acc_.record(case, nontrivial(case), ["hyp"])
+        acc_.record(case, nontrivial(case), ["hyp.large" if case["n_dest"] >= 64 else "hyp"])
         return check_case(case, acc_)
 
     core.drive(hcase(), hcheck, acc, (600 if tier == "quick" else 20000) // nshards + 1,
                seed * 1000 + shard)
+    core.drive(hlarge(), hcheck, acc, (8000 if tier == "quick" else 80000) // nshards + 1,
+               seed * 1000 + 400 + shard)
     return acc
